@@ -315,6 +315,10 @@ def reorder_containers(mesh, prio):
     return label
 
 
+class ForeignNeighbour(Exception):
+    """the neighbour/coincident relation of an assembled mesh names objects of another (earlier) assembly"""
+
+
 def iteration_orders(mesh, label):
     """The orders in which the implementation will walk neighbours / coincidents."""
     co = {}
@@ -324,11 +328,15 @@ def iteration_orders(mesh, label):
             lst = getattr(axis, "neighbour_list", None)
             if lst is None:
                 lst = list(axis.neighbours)
+            if any(id(x) not in label for x in lst):
+                raise ForeignNeighbour("block %d axis %d lists a neighbour axis that belongs to no block of this assembly" % (bi, ai))
             nb[(bi, ai)] = [label[id(x)][1:] for x in lst]
             for k, w in enumerate(axis.wires.wires):
                 lw = getattr(w, "coincident_list", None)
                 if lw is None:
                     lw = list(w.coincidents)
+                if any(id(x) not in label for x in lw):
+                    raise ForeignNeighbour("block %d axis %d wire %d lists a coincident wire that belongs to no block of this assembly" % (bi, ai, k))
                 co[(bi, ai, k)] = [label[id(x)][1:] for x in lw]
     return co, nb
 
@@ -347,15 +355,49 @@ def parse_blocks(text):
     return out
 
 
+def life_variant(asm):
+    """how the mesh object has lived before the write that is observed (chosen by the assembly itself, so that replays
+    agree): 0 fresh; 1 already written once (same outcome expected again, also after an error); 2 assembled, cleared and
+    assembled again; 3 graded explicitly before writing.  The grading a write produces is a function of the model, not of
+    what the mesh object went through."""
+    import hashlib
+    import json
+    h = int(hashlib.sha1(json.dumps(asm.to_json(), sort_keys=True, default=str).encode()).hexdigest()[:6], 16)
+    return (h % 8) if (h % 8) < 4 else 0
+
+
+def _write_outcome(mesh, path, ex, livelock):
+    try:
+        with warnings.catch_warnings():
+            warnings.simplefilter("ignore")
+            mesh.write(path)
+        with open(path) as f:
+            text = f.read()
+        blocks = text[text.index("blocks"):text.index("edges")] if ("blocks" in text and "edges" in text) else text
+        return "ok", blocks
+    except livelock:
+        return "nofuel", None
+    except ex.UndefinedGradingsError:
+        return "undefined", None
+    except ex.InconsistentGradingsError:
+        return "inconsistent", None
+    except Exception as e:  # noqa: BLE001
+        return "error:" + type(e).__name__, None
+
+
 def run_impl(asm, workdir, prio=None, budget_factor=6):
     """Returns dict(outcome=..., counts=[[nx,ny,nz]...] in block order, wire_counts=..., orders=..., file=text)"""
     from classy_blocks.base import exceptions as ex
     from classy_blocks.items.block import Block
 
     mesh, _ops = build_mesh(asm)
+    life = life_variant(asm)
     with warnings.catch_warnings():
         warnings.simplefilter("ignore")
         mesh.assemble()
+        if life == 2 and not prio:
+            mesh.clear()
+            mesh.assemble()
     if prio:
         label = reorder_containers(mesh, prio)
     else:
@@ -365,8 +407,13 @@ def run_impl(asm, workdir, prio=None, budget_factor=6):
                 label[id(axis)] = ("a", bi, ai)
                 for k, w in enumerate(axis.wires.wires):
                     label[id(w)] = ("w", bi, ai, k)
-    co, nb = iteration_orders(mesh, label)
     verts = [[v.index for v in b.vertices] for b in mesh.block_list.blocks]
+    try:
+        co, nb = iteration_orders(mesh, label)
+    except ForeignNeighbour as e:
+        # nothing the model could be run on: reported by the direct oracle
+        return dict(verts=verts, co={}, nb={}, outcome="error:ForeignNeighbour", message=str(e), life=life, copy_calls=0,
+                    chop_counts={}, life_diff="after clear() and a second assemble(): " + str(e))
     res = dict(verts=verts, co=co, nb=nb)
     nblocks = len(mesh.block_list.blocks)
     budget = budget_factor * (4 * nblocks + 2) * max(1, nblocks)
@@ -381,6 +428,21 @@ def run_impl(asm, workdir, prio=None, budget_factor=6):
 
     Block.copy_grading = counted
     path = os.path.join(workdir, "bmd_%d" % os.getpid())
+    first = None
+    try:
+        if life == 1:
+            first = _write_outcome(mesh, path, ex, Livelock)
+            calls[0] = 0
+        elif life == 3:
+            try:
+                with warnings.catch_warnings():
+                    warnings.simplefilter("ignore")
+                    mesh.grade()
+            except Exception:  # noqa: BLE001  (the write below meets the same error)
+                pass
+            calls[0] = 0
+    except Exception:  # noqa: BLE001
+        pass
     try:
         with warnings.catch_warnings():
             warnings.simplefilter("ignore")
@@ -398,6 +460,17 @@ def run_impl(asm, workdir, prio=None, budget_factor=6):
     finally:
         Block.copy_grading = orig
     res["copy_calls"] = calls[0]
+    res["life"] = life
+    if first is not None:
+        second_blocks = None
+        if res["outcome"] == "ok":
+            with open(path) as f:
+                t2 = f.read()
+            second_blocks = t2[t2.index("blocks"):t2.index("edges")] if ("blocks" in t2 and "edges" in t2) else t2
+        if first[0] != res["outcome"]:
+            res["life_diff"] = "the first write ended %s, the second write of the same mesh %s" % (first[0], res["outcome"])
+        elif first[0] == "ok" and first[1] != second_blocks:
+            res["life_diff"] = "the second write of the same mesh lists other blocks (counts/gradings) than the first"
     if res["outcome"] == "ok":
         res["counts"] = [[ax.count for ax in b.axes] for b in mesh.block_list.blocks]
         res["wire_counts"] = [[w.grading.count for ax in b.axes for w in ax.wires.wires] for b in mesh.block_list.blocks]
@@ -442,8 +515,15 @@ def sections_may_disagree(asm):
     return False
 
 
+def life_oracle(res):
+    """None or the reason: a repeated write must end like the first"""
+    return res.get("life_diff")
+
+
 def direct_oracle(asm, res):
     """C01/C02 stated on the implementation's observable output. Returns None or a reason string."""
+    if res.get("life_diff"):
+        return res["life_diff"]
     # block index = insertion position
     pos_of = {ci: p for p, ci in enumerate(asm.order)}
     stat = chop_counts_static(asm)
